@@ -493,6 +493,16 @@ func (c *FnCtx) special(p *Path, fn *ssa.Function, name string, args []Val) ([]o
 			return nil, false
 		}
 		c.checkNonNil(p, ptr.T, "atomic op")
+		if b, isB := et.Underlying().(*types.Basic); isB && (b.Kind() == types.Int64 || b.Kind() == types.Uint64) {
+			// sync/atomic: on 32-bit platforms a 64-bit operand must be 64-bit aligned, which Go guarantees only
+			// for the first word of an allocated struct; a field at an offset that is not a multiple of 8 under
+			// 4-byte words makes the operation panic ("unaligned 64-bit atomic operation")
+			if off, ok := c.eng.fieldOffset32(c.addrKey(ptr)); ok {
+				cond := fmt.Sprintf("(= (mod %d 8) 0)", off)
+				c.oblige(p, "safe", "atomic64_alignment_"+shortKey(c.addrKey(ptr)), cond,
+					fmt.Sprintf("64-bit atomic operation on %s, which sits at offset %d on 32-bit platforms (not 8-byte aligned: the operation panics there)", c.addrKey(ptr), off), nil)
+			}
+		}
 		switch {
 		case strings.HasPrefix(op, "Add"):
 			old := c.load(p, &p.heap, ptr, et)
